@@ -256,6 +256,19 @@ class Func(V):
         return f"Func<{self.fi.fq if self.fi else self.name}>"
 
 
+class Partial(V):
+    """functools.partial(f, *args, **kwargs)."""
+
+    def __init__(self, f, args, kwargs):
+        super().__init__()
+        self.f = f
+        self.args = list(args)
+        self.kwargs = dict(kwargs)
+
+    def __repr__(self):
+        return f"Partial<{self.f!r}>"
+
+
 class Ext(V):
     """Something outside the repository: builtin / stdlib function, class or module."""
 
